@@ -54,6 +54,14 @@ def make(cfg):
             e = H.guarded_step(A)
             if e is not None:
                 symx.prove(f"step() does not raise ({type(e).__name__}: {str(e)[:60]})", False, info)
+        if cfg.get("schedule"):
+            # a scheduler changed lr / weight decay after construction: the saved param_groups carry the current values and a resumed run must use them
+            for gi, grp in enumerate(A.opt.param_groups):
+                for key, hpk in (("lr", "lr"), ("weight_decay", "wd")):
+                    nv = symx.hp(f"{hpk}_sched_g{gi}")
+                    if H.IS_SYM and not isinstance(nv, float) and nv.c is None:
+                        symx.CTX.assume(nv.n >= 0)
+                    grp[key] = nv
         sd = A.opt.distributed_state_dict(key_to_param=iter(_named(A)))
         # unique keys: every state tensor has its own flat key
         nflat = sum(len(v) for v in sd["state"].values())
@@ -202,6 +210,8 @@ def jobs_for(tier):
     add(4, params=[(2, 2)], mpd=2, merge=False, graft="adam", nesterov=False, bias_corr=True, decoupled=True, pf=2, sps=2, precond="soap_eigh", stops=[2, 3], fixed=dict(mom=0))
     add(3, params=[(2, 2)], mpd=2, merge=False, graft=None, nesterov=False, bias_corr=True, decoupled=True, pf=2, sps=2, precond="soap_qr", stops=[2], fixed=dict(mom=0, wd=0))
     add(2, params=[(2, 2), (2,)], groups=[[0], [1]], mpd=2, merge=False, graft="sgd", nesterov=True, bias_corr=True, decoupled=True, pf=1, sps=1, stops=[1])
+    # hyperparameters changed after construction (lr / weight-decay scheduler) must come back from the checkpoint
+    add(2, params=[(2, 2), (2,)], groups=[[0], [1]], mpd=2, merge=False, graft="adam", nesterov=False, bias_corr=True, decoupled=True, pf=1, sps=1, stops=[0, 1], schedule=True, fixed=dict(mom=0))
     # a block that carries no Kronecker factor (every dimension ignored)
     add(2, params=[(1, 3)], mpd=4, merge=True, graft=None, nesterov=False, bias_corr=True, decoupled=True, pf=1, sps=1, ignored_dims=[0], fixed=dict(b1=0, mom=0), assume_generic=False, stops=[1])
     # strictness of loading
